@@ -1,8 +1,13 @@
 package spine
 
 import (
+	"encoding/json"
 	"sync"
 	"testing"
+	"time"
+
+	"github.com/enbility/spine-go/model"
+	"github.com/enbility/spine-go/util"
 )
 
 // Replay for post#atomic:(*Sender).getMsgCounter (C13): counters handed out to overlapping callers are pairwise
@@ -38,5 +43,60 @@ func TestReplay_C13_CountersUniqueUnderConcurrentUse(t *testing.T) {
 		if len(seen) != workers*per {
 			t.Fatalf("round %d: %d distinct counters for %d calls", round, len(seen), workers*per)
 		}
+	}
+}
+
+// Replay for post#reference-released-first / no-reference-no-release of (*DeviceRemote).HandleSpineMesssage (C13):
+// every inbound datagram that references a counter releases the de-duplication entry of that request, whether or
+// not the datagram is then accepted by ProcessCmd; afterwards the identical request is sent again with a new counter.
+func TestReplay_C13_ResponseReleasesRequestEvenIfRejected(t *testing.T) {
+	w := &WriteMessageHandler{}
+	ld := NewDeviceLocal("b", "m", "s", "c", "local", model.DeviceTypeTypeEnergyManagementSystem, model.NetworkManagementFeatureSetTypeSmart)
+	le := NewEntityLocal(ld, model.EntityTypeTypeCEM, []model.AddressEntityType{1}, 4*time.Second)
+	ld.AddEntity(le)
+	lf := le.GetOrAddFeature(model.FeatureTypeTypeDeviceDiagnosis, model.RoleTypeClient)
+	rd := NewDeviceRemote(ld, "ski-c13", NewSender(w))
+	rd.UpdateDevice(&model.NetworkManagementDeviceDescriptionDataType{DeviceAddress: &model.DeviceAddressType{Device: util.Ptr(model.AddressDeviceType("remote"))}})
+	re := NewEntityRemote(rd, model.EntityTypeTypeEVSE, []model.AddressEntityType{1})
+	rf := NewFeatureRemote(0, re, model.FeatureTypeTypeDeviceDiagnosis, model.RoleTypeServer)
+	re.AddFeature(rf)
+	rd.AddEntity(re)
+
+	req := func() model.MsgCounterType {
+		c, err := lf.RequestRemoteData(model.FunctionTypeDeviceDiagnosisStateData, nil, nil, rf)
+		if err != nil || c == nil {
+			t.Fatalf("request failed: %v", err)
+		}
+		return *c
+	}
+	c1 := req()
+	if c2 := req(); c2 != c1 {
+		t.Fatalf("an identical unanswered request must be withheld: got counter %d, earlier %d", c2, c1)
+	}
+	// a reply that references c1 but is rejected by the local feature (partial filter on a function without partial support)
+	d := model.Datagram{Datagram: model.DatagramType{
+		Header: model.HeaderType{
+			SpecificationVersion: &SpecificationVersion,
+			AddressSource:        rf.Address(),
+			AddressDestination:   lf.Address(),
+			MsgCounter:           util.Ptr(model.MsgCounterType(77)),
+			MsgCounterReference:  util.Ptr(c1),
+			CmdClassifier:        util.Ptr(model.CmdClassifierTypeReply),
+		},
+		Payload: model.PayloadType{Cmd: []model.CmdType{{
+			Function:                 util.Ptr(model.FunctionTypeDeviceDiagnosisStateData),
+			Filter:                   []model.FilterType{{CmdControl: &model.CmdControlType{Partial: &model.ElementTagType{}}}},
+			DeviceDiagnosisStateData: &model.DeviceDiagnosisStateDataType{},
+		}}},
+	}}
+	b, err := json.Marshal(d)
+	if err != nil {
+		t.Fatal(err)
+	}
+	if _, err := rd.HandleSpineMesssage(b); err != nil {
+		t.Fatalf("datagram not decoded: %v", err)
+	}
+	if c3 := req(); c3 == c1 {
+		t.Errorf("C13 violated: the request with counter %d has been answered (by a response that was then rejected), yet the identical request is still withheld", c1)
 	}
 }
